@@ -35,6 +35,13 @@ Fixpoint after (l : recs) (k0 : K) : recs :=
   | (k', _) :: r => match cmp k' k0 with Eq => r | _ => after r k0 end
   end.
 
+(* ... and what a backward scan still has to deliver: everything in front of that record (in scan order) *)
+Fixpoint before (l : recs) (k0 : K) : recs :=
+  match l with
+  | [] => []
+  | (k', v') :: r => match cmp k' k0 with Eq => [] | _ => (k', v') :: before r k0 end
+  end.
+
 Lemma cmp_refl a : cmp a a = Eq.
 Proof. pose proof (cmp_antisym a a) as H. destruct (cmp a a); simpl in H; congruence. Qed.
 Lemma cmp_eq_sym a b : cmp a b = Eq -> cmp b a = Eq.
